@@ -59,6 +59,41 @@ func (r *evRec) addIf(act func() bool, f string, a ...any) {
 	r.mu.Unlock()
 }
 
+// supAtRest: every stimulus recorded so far has been taken and answered by complete passes over the Reloadable mocks
+func supAtRest(evs []string, sc SupScenario) bool {
+	var lt, ld, ac, ar, hup int
+	lr := map[string]int{}
+	li := map[string]int{}
+	for _, e := range evs {
+		switch {
+		case strings.HasPrefix(e, "LT"):
+			lt++
+		case strings.HasPrefix(e, "LD"):
+			ld++
+		case e == "AC":
+			ac++
+		case e == "AR":
+			ar++
+		case e == "SG:hup":
+			hup++
+		case strings.HasPrefix(e, "LR"):
+			lr[e[2:]]++
+		case strings.HasPrefix(e, "LI"):
+			li[e[2:]]++
+		}
+	}
+	if lt != ld || ac != ar {
+		return false
+	}
+	for i, m := range sc.Mocks {
+		k := fmt.Sprint(i)
+		if len(m.Caps) > 1 && m.Caps[1] == '1' && (lr[k] != ar+hup+ld || li[k] != lr[k]) {
+			return false
+		}
+	}
+	return true
+}
+
 func (r *evRec) snapshot() ([]string, time.Time) {
 	r.mu.Lock()
 	defer r.mu.Unlock()
@@ -533,8 +568,14 @@ func runSupScenario(sc SupScenario) supResult {
 		time.Sleep(time.Duration(sc.QuietMs) * time.Millisecond)
 		// "at rest" means nothing is going on: on a busy machine the stimuli and the passes they cause can run
 		// late, so wait until the trace has not grown for 30 ms (2 s at most) before it is taken
-		for k := 0; k < 200; k++ {
-			if _, last := rec.snapshot(); time.Since(last) >= 30*time.Millisecond {
+		// ... and, while some stimulus that was issued has not been answered yet (a send that has not completed, a
+		// ReloadAll() that has not returned, a pass still owed), 400 ms of silence (4 s at most): a goroutine of the
+		// harness or of the supervisor that was descheduled for 30 ms on a loaded machine is not a lost request, a
+		// request that is still unanswered after 400 ms without any event is
+		for k := 0; k < 400; k++ {
+			evs, last := rec.snapshot()
+			silent := time.Since(last)
+			if silent >= 400*time.Millisecond || (silent >= 30*time.Millisecond && supAtRest(evs, sc)) {
 				break
 			}
 			time.Sleep(10 * time.Millisecond)
